@@ -401,3 +401,40 @@ pub fn run(tier: &str, config: &str) -> Report {
     rep.assumptions.push("schedules are enumerated at API-call granularity; pre-emption inside std::sync::Once / std_detect's CPUID cache / a compression call is outside what a call-level scheduler can produce (DESIGN.md section 10)".into());
     rep
 }
+
+pub fn replay(v: &serde_json::Value) -> Option<bool> {
+    let scn = v["scenario"].as_str()?;
+    let sc = scenarios().into_iter().find(|s| s.name == scn)?;
+    let exe = std::env::current_exe().ok()?;
+    let want: Vec<String> = expected(&sc).iter().map(|x| vref::hex(x)).collect();
+    if v["mode"].as_str()? == "free-running" {
+        println!("replay C18 {}: free-running supplement (sampling) - 20 cold processes", scn);
+        let mut bad = 0;
+        for _ in 0..20 {
+            if let Ok(l) = run_child(&exe, &["c18-free", scn, "4", "300"]) {
+                if l.get(0).map(|s| !s.ends_with(" 0")).unwrap_or(true) {
+                    bad += 1;
+                }
+            } else {
+                bad += 1;
+            }
+        }
+        println!("  {} of 20 processes produced a wrong result", bad);
+        return Some(bad == 0);
+    }
+    let sched = v["schedule"].as_str()?;
+    let mode = v["mode"].as_str()?;
+    println!("replay C18 {} schedule {} ({})", scn, sched, mode);
+    match run_child(&exe, &["c18-child", scn, sched, mode]) {
+        Err(e) => { println!("  child failed: {}", e); Some(false) }
+        Ok(lines) => {
+            let mut ok = true;
+            for (t, w) in want.iter().enumerate() {
+                let g = lines.get(t).cloned().unwrap_or_default();
+                println!("  thread {} ({:?}): {} {}", t, sc.progs[t], &g[..g.len().min(24)], if &g == w { "ok" } else { "DIFFERS" });
+                ok &= &g == w;
+            }
+            Some(ok)
+        }
+    }
+}
